@@ -531,3 +531,109 @@ func sendOrdinal(fn *ssa.Function, in ssa.Instruction) string {
 	}
 	return "#?"
 }
+
+func init() {
+	reg("C12-R6", "the dispatcher cannot be blocked by a caller: RequestManager.Run is the only receiver of the wake-up/result channel, so its sends must not wait for a caller — every channel that reaches a callerCh field (queryRequest / reqResult) is made with a constant capacity >= 1 (one reply per request: C12-R1), or is a copy of another callerCh field; Run sends on nothing else", func(w *World, r *Report) {
+		run := w.Fn("samehada", "RequestManager", "Run")
+		cq := w.Field("samehada", "queryRequest", "callerCh")
+		cr := w.Field("samehada", "reqResult", "callerCh")
+		isCallerChLoad := func(v ssa.Value) bool { return fieldLoadOf(v, cq) || fieldLoadOf(v, cr) }
+		// sends in Run (and in the helpers it calls on the dispatcher goroutine)
+		nSend := 0
+		for _, fn := range []*ssa.Function{run, w.Fn("samehada", "RequestManager", "handleAbortedByCCTxn"), w.Fn("samehada", "RequestManager", "executeQuedTxns"), w.Fn("samehada", "RequestManager", "RetrieveRequest")} {
+			for _, b := range fn.Blocks {
+				for _, in := range b.Instrs {
+					s, ok := in.(*ssa.Send)
+					if !ok {
+						continue
+					}
+					nSend++
+					r.Check(DependsOn(s.Chan, isCallerChLoad), fn.Name()+":sends-only-replies"+ordinalOfSend(fn, s), "the dispatcher goroutine sends only on per-request reply channels", "send at "+w.InstrPos(s)+" on a channel that is not a callerCh: its capacity is not covered by this rule")
+				}
+			}
+		}
+		r.Floor("sends on the dispatcher goroutine", nSend, 1)
+		// every store into a callerCh field
+		nStore, nMake := 0, 0
+		for _, fn := range w.RepoFuncs {
+			if w.IsTestFunc(fn) {
+				continue
+			}
+			for _, b := range fn.Blocks {
+				for _, in := range b.Instrs {
+					st, ok := in.(*ssa.Store)
+					if !ok || !(isFieldAddrOf(st.Addr, cq) || isFieldAddrOf(st.Addr, cr)) {
+						continue
+					}
+					nStore++
+					key := funcKey(fn) + ":callerCh-origin" + storeOrdinalAny(fn, st)
+					val := stripConv(st.Val)
+					if isCallerChLoad(val) {
+						r.Ok(key, "copy of another request's reply channel")
+						continue
+					}
+					al, isAlloc := val.(*ssa.Alloc)
+					if !isAlloc {
+						r.Bad(key, "a reply channel is made with capacity >= 1 where the request is created", "value stored at "+w.InstrPos(st)+" is neither a fresh channel cell nor a copy of a callerCh field")
+						continue
+					}
+					good, seen := true, false
+					for _, s2 := range storesInto(al) {
+						mc, ok := stripConv(s2.Val).(*ssa.MakeChan)
+						if !ok {
+							good = false
+							continue
+						}
+						seen = true
+						nMake++
+						cv, isConst := constOf(mc.Size)
+						if !isConst {
+							good = false
+							continue
+						}
+						if n, _ := constant.Int64Val(constant.ToInt(cv)); n < 1 {
+							good = false
+						}
+					}
+					r.Check(good && seen, key, "a reply channel is made with capacity >= 1 where the request is created", "the channel stored at "+w.InstrPos(st)+" is unbuffered (or of unknown capacity): the dispatcher blocks on the reply while the caller is still blocked on the full wake-up channel, and nobody drains that channel any more")
+				}
+			}
+		}
+		r.Floor("stores into callerCh fields", nStore, 2)
+		r.Floor("reply channels made", nMake, 1)
+	})
+}
+
+func ordinalOfSend(fn *ssa.Function, s *ssa.Send) string {
+	n := 0
+	for _, b := range fn.Blocks {
+		for _, in := range b.Instrs {
+			if x, ok := in.(*ssa.Send); ok {
+				n++
+				if x == s {
+					return "#" + itoa(n)
+				}
+			}
+		}
+	}
+	return ""
+}
+
+func storeOrdinalAny(fn *ssa.Function, st *ssa.Store) string {
+	n := 0
+	for _, b := range fn.Blocks {
+		for _, in := range b.Instrs {
+			if x, ok := in.(*ssa.Store); ok {
+				if fa, ok := x.Addr.(*ssa.FieldAddr); ok {
+					if fa2, ok := st.Addr.(*ssa.FieldAddr); ok && fa.Field == fa2.Field && fa.X.Type() == fa2.X.Type() {
+						n++
+						if x == st {
+							return "#" + itoa(n)
+						}
+					}
+				}
+			}
+		}
+	}
+	return ""
+}
